@@ -118,6 +118,28 @@ pub fn battery(e: &Envelope, other: &Envelope, keys: &Keys) -> Vec<(String, Stri
     // proofs
     t!("proof_contains_set", e.proof_contains_set(&tset)); t!("proof_contains_target", e.proof_contains_target(other)); t!("confirm_contains_set", e.confirm_contains_set(&tset, other));
     t!("confirm_contains_target", other.confirm_contains_target(e, e));
+    // proofs for the envelope's own elements, produced and confirmed: every digest alone, neighbouring pairs, all of them together (a
+    // digest may sit at several positions); and the same after an assertion whose predicate, object and the subject are one envelope
+    {
+        let s0 = e.subject();
+        let twin = if s0.is_subject_assertion() || s0.is_obscured() { e.clone() } else { e.add_assertion(s0.clone(), s0.clone()).add_assertion("knows", s0.clone()).add_assertion("likes", s0.clone()) };
+        for host in [e, &twin] {
+            let mut ds: Vec<bc_components::Digest> = vec![];
+            for (_, x) in crate::oracles::elements(host) { let d = x.digest().into_owned(); if !ds.contains(&d) { ds.push(d); } if ds.len() >= 14 { break; } }
+            let mut sets: Vec<HashSet<bc_components::Digest>> = ds.iter().map(|d| [d.clone()].into_iter().collect()).collect();
+            for w in ds.windows(2) { sets.push(w.iter().cloned().collect()); }
+            for w in ds.windows(3) { sets.push([w[0].clone(), w[2].clone()].into_iter().collect()); }
+            sets.push(ds.iter().cloned().collect());
+            let root = host.elide();
+            for set in &sets {
+                if let Ok(Some(p)) = guarded(|| host.proof_contains_set(set)) {
+                    t!("confirm_contains_set(own proof)", host.confirm_contains_set(set, &p));
+                    t!("confirm_contains_set(own proof, root only)", root.confirm_contains_set(set, &p));
+                    if set.len() == 1 { let d = set.iter().next().unwrap().clone(); if let Some((_, x)) = crate::oracles::elements(host).into_iter().find(|(_, x)| *x.digest() == d) { t!("confirm_contains_target(own proof)", root.confirm_contains_target(&x, &p)); } }
+                } else { t!("proof_contains_set(own digests)", host.proof_contains_set(set)); }
+            }
+        }
+    }
     // formatting and encoding
     t!("format", e.format()); t!("format_flat", e.format_flat()); t!("tree_format(false)", e.tree_format(false)); t!("tree_format(true)", e.tree_format(true));
     t!("tree_format_with_target", e.tree_format_with_target(false, &tset));
